@@ -32,7 +32,7 @@ var unmodelled = map[string]map[string]bool{
 	"os": {"Link": true, "Symlink": true, "Readlink": true, "Chown": true, "Lchown": true, "Chtimes": true,
 		"DirFS": true, "CopyFS": true, "NewFile": true, "Chdir": true, "SameFile": true, "Pipe": true, "OpenRoot": true, "OpenInRoot": true},
 	"ioutil":   {"ReadFile": true, "WriteFile": true, "ReadDir": true, "TempFile": true, "TempDir": true},
-	"filepath": {"Walk": true, "WalkDir": true, "EvalSymlinks": true},
+	"filepath": {"EvalSymlinks": true},
 	"syscall": {"Open": true, "Rename": true, "Unlink": true, "Mkdir": true, "Rmdir": true, "Fsync": true, "Flock": true,
 		"Mmap": true, "Ftruncate": true, "Truncate": true, "Link": true, "Symlink": true, "Fdatasync": true, "Sync": true},
 	"unix": {"Open": true, "Rename": true, "Unlink": true, "Mkdir": true, "Rmdir": true, "Fsync": true, "Flock": true,
@@ -211,7 +211,7 @@ func rewriteFile(rel string, src []byte, doFS, doSync bool) (out []byte, nfs, ns
 		}
 		switch canon {
 		case "filepath":
-			if doFS && sel.Sel.Name == "Glob" {
+			if doFS && (sel.Sel.Name == "Glob" || sel.Sel.Name == "Walk" || sel.Sel.Name == "WalkDir") {
 				id.Name = "simfs"
 				nfs++
 				globbed = true
